@@ -13,6 +13,8 @@ Proof.
   - destruct (q x); [cbn [filter]; rewrite Ep|]; exact IH.
 Qed.
 
+Lemma filter_all_true' {A} (f : A -> bool) l : (forall x, In x l -> f x = true) -> filter f l = l.
+Proof. induction l as [|x l IH]; cbn; auto. intros H. rewrite (H x (or_introl eq_refl)). f_equal. apply IH. intros y Hy. apply H. now right. Qed.
 (* an import on the installing thread through an ordinary source loader: rewritten for EXACTLY the tracers of the stack
    that accept the file, in stack order; the stock compile when none accepts *)
 Theorem compile_exact stack f :
@@ -36,6 +38,38 @@ Proof.
   - intros H. assert (E : filter (fun t => t_accepts t f) stack = []).
     { induction stack as [|x l IH]; [reflexivity|]. cbn [filter]. rewrite (H x (or_introl eq_refl)). apply IH. intros t Ht. apply H. now right. }
     now rewrite E.
+Qed.
+(* a loader that loads later: rewritten for exactly the accepting tracers of the stack it was found under that are still on
+   the stack it loads under *)
+Lemma filter_comm {A} (p q : A -> bool) l : filter p (filter q l) = filter q (filter p l).
+Proof. induction l as [|x l IH]; cbn; auto. destruct (p x) eqn:Ep, (q x) eqn:Eq; cbn; rewrite ?Ep, ?Eq, IH; reflexivity. Qed.
+Theorem compile_later_exact found load f :
+  compile_later found load f true true =
+    match filter (fun t => existsb (N.eqb (t_id t)) (map t_id load)) (filter (fun t => t_accepts t f) found) with
+    | [] => Stock | ts => Rewritten (map t_id ts) end.
+Proof.
+  unfold compile_later, wraps, loader_tracers, live. cbn [andb].
+  pose proof (filter_filter_or (fun t => t_accepts t f) (fun t => t_import_events t f) found) as E.
+  cbv beta in E. change (filter (fun t => t_accepts t f || t_import_events t f) found) with (finder_tracers found f) in E.
+  rewrite (filter_comm (fun t => t_accepts t f)), E.
+  destruct (finder_tracers found f) as [|t ts] eqn:Ef; cbn [negb]; [|reflexivity].
+  cbn [filter] in E. rewrite <- E. reflexivity.
+Qed.
+(* after the context (nothing on the stack any more) it is a plain source loader *)
+Theorem compile_later_after found f src same : compile_later found [] f src same = Stock.
+Proof.
+  unfold compile_later, live. destruct (wraps found f src same); [|reflexivity]. cbn [map existsb].
+  assert (E : forall l : list tracer, filter (fun _ => false) l = []) by (induction l; auto).
+  rewrite E. reflexivity.
+Qed.
+(* loading at once is the ordinary import *)
+Theorem compile_later_now stack f src same : compile_later stack stack f src same = compile_of stack f src same.
+Proof.
+  unfold compile_later, compile_of, live. destruct (wraps stack f src same); [|reflexivity].
+  assert (E : filter (fun t => existsb (N.eqb (t_id t)) (map t_id stack)) (finder_tracers stack f) = finder_tracers stack f).
+  { apply filter_all_true'. intros t Ht. apply existsb_exists. exists (t_id t). split; [|apply N.eqb_refl].
+    apply in_map. unfold finder_tracers in Ht. apply filter_In in Ht. tauto. }
+  now rewrite E.
 Qed.
 Theorem compile_other_loader stack f same_thread : compile_of stack f false same_thread = Stock.
 Proof. unfold compile_of, wraps. now rewrite andb_false_r. Qed.
